@@ -40,6 +40,8 @@ type C16Case struct {
 	Costly bool `json:"costly,omitempty"`
 	// BadProps > 0: the chunk with index BadProps-1 (LRN or LRND) carries lc+lp > 4
 	BadProps int `json:"bad_props,omitempty"`
+	// Marker > 0: the LZMA chunk with index Marker-1 ends with an end-of-payload marker
+	Marker int `json:"marker,omitempty"`
 }
 
 var c16Prefixes = [][]string{{}, {"LRND"}, {"UD"}, {"LRND", "U"}, {"UD", "U"}}
@@ -132,6 +134,17 @@ func genC16(r *sim.Rng, tier string, idx int) *C16Case {
 				c.BadProps = sim.Pick(r, pn) + 1
 			}
 		}
+		if c.BadProps == 0 && r.Chance(1, 30) {
+			var lz []int
+			for i, k := range kinds {
+				if k[0] == 'L' {
+					lz = append(lz, i)
+				}
+			}
+			if len(lz) > 0 {
+				c.Marker = sim.Pick(r, lz) + 1
+			}
+		}
 		if r.Chance(1, 25) {
 			var lz []int
 			for i, k := range kinds {
@@ -210,10 +223,16 @@ func realiseC16(c *C16Case) (cs *refenc.ChunkSeq, legal bool, bad int) {
 	if c.BadProps > 0 {
 		o.BadProps = map[int]bool{c.BadProps - 1: true}
 	}
+	if c.Marker > 0 {
+		o.Marker = map[int]bool{c.Marker - 1: true}
+	}
 	cs = refenc.Realise(r, kinds, o)
 	legal, bad = refenc.Legal(kinds)
 	if c.BadProps > 0 && (legal || c.BadProps-1 < bad) {
 		legal, bad = false, c.BadProps-1 // the chunk with the forbidden properties is the first offence
+	}
+	if c.Marker > 0 && (legal || c.Marker-1 < bad) {
+		legal, bad = false, c.Marker-1 // LZMA2 knows no end-of-payload marker inside a chunk
 	}
 	return cs, legal, bad
 }
